@@ -37,6 +37,8 @@ AbsClean(res) == \A i \in 1..Len(res) : res[i] \notin {"", ".", ".."}
    segment is empty, or if it consists of the trailing slash alone *)
 EffAbs(abs, trail, segs) == abs \/ (Len(segs) >= 2 /\ segs[1] = "") \/ (Len(segs) = 1 /\ segs[1] = "" /\ trail) \/ (segs = <<>> /\ trail)
 
+(* the start directory as the segments it denotes; the replay writes it in four string forms ("/s/t", "s/t" or "",
+   "/./s/./t/", "../s/t"): a start directory is cleaned against "/" like any other path *)
 Starts == {<<>>, <<"s">>, <<"s", "t">>}
 PathCases(n) == {[kind |-> "path", start |-> st, abs |-> ab, trail |-> tr, segs |-> sg, want |-> PathString(Clean(st, EffAbs(ab, tr, sg), sg))] :
                    st \in Starts, ab \in BOOLEAN, tr \in BOOLEAN, sg \in SeqsUpTo(Segs, n)}
